@@ -74,6 +74,11 @@ func runC05(t *testing.T, r *engine.Run) {
 		w.enableHooks("ads.init.afterAddCon")
 	}
 	wd := newWorld(tp, nil)
+	defer func() {
+		if wd.raced {
+			r.Probe("pushrace_tagged_run")
+		}
+	}()
 	maxSteps := 10 + tp.Choose(50, "maxsteps")
 	if tier == "thorough" {
 		maxSteps = 10 + tp.Choose(120, "maxsteps2")
